@@ -3,22 +3,28 @@
 // Driver "keyphase": two real updatableAEADs (endpoints 0 and 1) with mirrored deterministic traffic
 // secrets; histories of seal / reordered, duplicated, tampered deliveries / ACKs / time / local and
 // remote key updates / forged packets of arbitrary key generations.
+// Round 5: op `pack` sends through the REAL packer instead (every method of the packer interface that can emit
+// a 1-RTT packet, on a packetPacker and on a uPacketPacker, the endpoint's updatableAEAD as the 1-RTT sealer,
+// real header protection), and `open` of such a packet goes through the real packetUnpacker of the peer.
 package keyphase
 
 import (
 	"bytes"
 	"errors"
 	"fmt"
+	"io"
 	"strings"
 	"testing"
 	"time"
 
+	quic "github.com/refraction-networking/uquic"
 	"github.com/refraction-networking/uquic/internal/handshake"
 	"github.com/refraction-networking/uquic/internal/monotime"
 	"github.com/refraction-networking/uquic/internal/protocol"
 	"github.com/refraction-networking/uquic/internal/qerr"
 	"github.com/refraction-networking/uquic/internal/utils"
 	"github.com/refraction-networking/uquic/internal/verifharness/vh"
+	"github.com/refraction-networking/uquic/internal/wire"
 )
 
 var suiteIDs = []uint16{0x1301, 0x1302, 0x1303}
@@ -29,11 +35,26 @@ type pkt struct {
 	kpbit  int // 0/1 as written by the sender
 	sealed []byte
 	msg    []byte
+	// packed by the real packer: the protected packet, its destination connection ID length
+	packed bool
+	raw    []byte
+	cidLen int
+}
+
+var packPaths = []string{"append", "ackonly", "coal", "pto", "mtu", "path", "cclose", "aclose"}
+
+// destination connection ID of the packets endpoint i sends (8 bytes / zero length)
+func destCID(i int) []byte {
+	if i == 0 {
+		return []byte{0xc0, 1, 2, 3, 4, 5, 6, 7}
+	}
+	return nil
 }
 
 type runner struct {
 	inited  bool
 	ua      [2]*handshake.VerifUA
+	pk      [2]*quic.VerifKPPacker
 	secret  [2][]byte // write secret of endpoint i
 	suite   uint16
 	ver     protocol.Version
@@ -88,6 +109,14 @@ func (rn *runner) init(suiteIdx int, ver int, kui, fkui uint64, rttMs int64) str
 		}
 		pto3 = int64(3 * rtt.PTO(true))
 		rn.ua[i] = handshake.VerifNewUpdatableAEAD(rn.suite, rn.secret[1-i], rn.secret[i], rn.ver, rtt)
+		// long header keys next to the 1-RTT keys (stand-ins derived like Initial keys from two connection IDs)
+		pers := protocol.PerspectiveClient
+		if i == 1 {
+			pers = protocol.PerspectiveServer
+		}
+		ini, _ := handshake.NewInitialAEAD(protocol.ParseConnectionID([]byte{1, 1, 2, 3, 5, 8, 13, 21}), pers, rn.ver)
+		hs, _ := handshake.NewInitialAEAD(protocol.ParseConnectionID([]byte{2, 7, 1, 8, 2, 8, 1, 8}), pers, rn.ver)
+		rn.pk[i] = quic.VerifNewKPPacker(rn.ua[i].Sealer(), ini, hs, destCID(i), i == 0)
 	}
 	rn.inited = true
 	return fmt.Sprintf("pto3=%d limit=%d", pto3, rn.ua[0].InvalidPacketLimit())
@@ -153,6 +182,14 @@ func (rn *runner) GenOp(r *vh.Rand, i int) string {
 		op := "seal"
 		if r.Chance(5) {
 			op = "sealraw"
+		}
+		if r.Chance(45) { // through the real packer
+			path := packPaths[r.Pick(22, 8, 14, 10, 6, 6, 17, 17)]
+			pnLen := []int{4, 2, 3, 1}[r.Pick(55, 25, 12, 8)]
+			src := r.Pick(45, 20, 20, 15) // what the frame sources hold: data, ack, both, nothing
+			flag := r.Intn(2)
+			long := r.Pick(50, 25, 25)
+			return fmt.Sprintf("pack %d %d %s %d %d %d %d %d %d %d", ep, id, path, r.Intn(2), pnLen, rn.nextPN[ep]-1, []int{1, 2, 3, 0}[src], flag, long, r.Intn(2))
 		}
 		return fmt.Sprintf("%s %d %d %d", op, ep, id, rn.nextPN[ep]-1)
 	case 1: // deliver to ep a packet sent by the peer
@@ -283,6 +320,27 @@ func (rn *runner) Exec(op string) string {
 		sealed := u.Seal(m, protocol.PacketNumber(pn), ad(bit, pn))
 		rn.pkts[id] = &pkt{from: ep, pn: pn, kpbit: bit, sealed: sealed, msg: m}
 		return fmt.Sprintf("bit=%d gen=%d len=%d ct=%x %s", bit, gen, len(sealed)-len(m), sealed, u.State())
+	case "pack":
+		// pack <ep> <id> <path> <uquic> <pnlen> <pn> <src> <flag> <long> <hsdata>
+		if len(f) < 11 {
+			return "skip"
+		}
+		id, pnLen, pn, src := int(n(2)), int(n(5)), n(6), int(n(7))
+		if pnLen < 1 || pnLen > 4 || pn < 0 {
+			return "skip"
+		}
+		out := rn.pk[ep].Pack(quic.VerifKPIn{Path: f[3], UQUIC: n(4)&1 == 1, PN: pn, PNLen: pnLen,
+			Data: src&1 != 0, Ack: src&2 != 0, Flag: n(8)&1 == 1, Long: int(n(9)), HSData: n(10)&1 == 1,
+			V2: rn.ver == protocol.Version2})
+		if out.Err != "" {
+			return "E:pack " + u.State()
+		}
+		if !out.Produced {
+			return "none " + u.State()
+		}
+		gen := u.GenerationPhase()
+		rn.pkts[id] = &pkt{from: ep, pn: pn, kpbit: out.KeyPhase, packed: true, raw: out.Raw, cidLen: len(destCID(ep))}
+		return fmt.Sprintf("bit=%d gen=%d pn=%d pnlen=%d popped=%d len=%d %s", out.KeyPhase, gen, out.PN, out.PNLen, out.Popped, len(out.Raw), u.State())
 	case "forge":
 		id, g, pn := int(n(2)), int(n(3)), n(4)
 		if g < 0 || g > 1000 {
@@ -299,6 +357,9 @@ func (rn *runner) Exec(op string) string {
 			return "skip"
 		}
 		t, kpflip, pnd, bf := n(3), int(n(4))&1, n(5), int(n(6))
+		if p.packed {
+			return rn.openPacked(ep, p, t, kpflip, bf)
+		}
 		bit := p.kpbit ^ kpflip
 		a := ad(bit, p.pn)
 		src := append([]byte{}, p.sealed...)
@@ -341,6 +402,85 @@ func (rn *runner) Exec(op string) string {
 		return fmt.Sprintf("%d", int64(u.DecodePacketNumber(protocol.PacketNumber(n(3)), protocol.PacketNumberLen(n(2)))))
 	}
 	return "bad-op"
+}
+
+// frameCheck parses the decrypted payload of a packed packet: it must consist of the frames the stub sources
+// can produce (ACK, MAX_DATA, PING, PATH_CHALLENGE, CONNECTION_CLOSE) and PADDING, nothing else.
+func frameCheck(payload []byte, ver protocol.Version) string {
+	fp := wire.NewFrameParser(false, false, false)
+	n := 0
+	data := payload
+	for len(data) > 0 {
+		ft, l, err := fp.ParseType(data, protocol.Encryption1RTT)
+		if err != nil {
+			if err == io.EOF {
+				break
+			}
+			return "bad-type"
+		}
+		data = data[l:]
+		switch {
+		case ft.IsAckFrameType():
+			_, l, err := fp.ParseAckFrame(ft, data, protocol.Encryption1RTT, ver)
+			if err != nil {
+				return "bad-ack"
+			}
+			data = data[l:]
+		case ft.IsStreamFrameType() || ft.IsDatagramFrameType():
+			return "unexpected"
+		default:
+			f, l, err := fp.ParseLessCommonFrame(ft, data, ver)
+			if err != nil {
+				return "bad-frame"
+			}
+			switch f.(type) {
+			case *wire.MaxDataFrame, *wire.PingFrame, *wire.PathChallengeFrame, *wire.ConnectionCloseFrame:
+			default:
+				return "unexpected"
+			}
+			data = data[l:]
+		}
+		n++
+	}
+	if n == 0 {
+		return "empty"
+	}
+	return "ok"
+}
+
+// openPacked delivers a packet the real packer produced to endpoint ep's real packetUnpacker. Tampering: the
+// key-phase bit of the (protected) first byte, or one bit behind the header-protection sample.
+func (rn *runner) openPacked(ep int, p *pkt, t int64, kpflip, bf int) string {
+	u := rn.ua[ep]
+	if p.from == ep {
+		return "skip" // the own receive keys cannot even remove the header protection
+	}
+	data := append([]byte{}, p.raw...)
+	if kpflip == 1 {
+		data[0] ^= 0x04
+	}
+	off := 1 + p.cidLen
+	if bf > 0 && len(data) > off+20 {
+		k := (bf - 1) % (8 * (len(data) - off - 20))
+		data[off+20+k/8] ^= 1 << (k % 8)
+	}
+	pn, _, kp, dec, err := quic.VerifUnpackShortHeaderPacket(u.Opener(), p.cidLen, monotime.Time(t), data)
+	var res string
+	switch {
+	case err == nil:
+		res = fmt.Sprintf("ok wbit=%d dpn=%d frames=%s", kpBit(kp), int64(pn), frameCheck(dec, rn.ver))
+		if kpflip == 0 && !(bf > 0 && len(data) > off+20) {
+			rn.rcvdOK[p.from] = append(rn.rcvdOK[p.from], p.pn)
+		}
+	case err == wire.ErrInvalidReservedBits:
+		res = "E:reserved"
+	case quic.VerifIsHeaderParseError(err):
+		res = "E:hdrparse"
+	default:
+		res = errName(err)
+	}
+	rn.lastRes = res
+	return res + " " + u.State()
 }
 
 func TestDriver(t *testing.T) { vh.Main(t, "keyphase", newRunner) }
